@@ -29,7 +29,7 @@ Proof. intros cfg OK OO src h dr0 WF WH H. exact (crash_safe_generic cfg OK OO s
 Theorem C05_save_then_read :
   forall cfg, cfg_ok cfg = true -> order_ok (glob_order cfg) ->
   forall src d m dr0, wf_snap d = true ->
-    map fst (run cfg src [Save d m; Read] dr0) = [RNone; RLoaded (Some (img d m))].
+    map fst (run cfg src [Save d m; Read false] dr0) = [RNone; RLoaded (Some (img d m))].
 Proof. intros cfg OK OO src d m dr0 WF. exact (save_then_read_generic cfg OK OO src d m dr0 WF). Qed.
 
 (* the second read of a source directory is served from the cache written by
@@ -37,10 +37,23 @@ Proof. intros cfg OK OO src d m dr0 WF. exact (save_then_read_generic cfg OK OO 
 Theorem C05_cache_transparent :
   forall cfg, cfg_ok cfg = true -> order_ok (glob_order cfg) ->
   forall src dr0, wf_snap src = true -> has (read_sentinel cfg) dr0 = false ->
-    map fst (run cfg src [Read; Read] dr0) = [RParsed; RLoaded (Some src)].
+    map fst (run cfg src [Read false; Read false] dr0) = [RParsed; RLoaded (Some src)].
 Proof.
   intros cfg OK OO src dr0 WF H.
   rewrite (cache_transparent_generic cfg OK OO src WF dr0 H), img_full. reflexivity.
+Qed.
+
+(* read_mesh_only: a mesh-only read of a source directory leaves nothing that
+   a later full read would be served from; once the full read has cached the
+   source, mesh-only reads get the mesh part of that cache *)
+Theorem C05_mesh_read_then_full_read :
+  forall cfg, cfg_ok cfg = true -> order_ok (glob_order cfg) ->
+  forall src dr0, wf_snap src = true -> has (read_sentinel cfg) dr0 = false ->
+    map fst (run cfg src [Read true; Read false; Read false; Read true] dr0)
+    = [RParsed; RParsed; RLoaded (Some src); RLoaded (Some (img src true))].
+Proof.
+  intros cfg OK OO src dr0 WF H.
+  rewrite (mesh_read_then_full_generic cfg OK OO src WF dr0 H), img_full. reflexivity.
 Qed.
 
 (* non-vacuity: a configuration that satisfies the static check (the present
@@ -60,6 +73,7 @@ Definition example_cfg : save_cfg := {|
   load_names := [(CNodes, "femio_nodes.npz"); (CElements, "femio_elements.npz");
                  (CNodal, "femio_nodal_data.npz"); (CElemental, "femio_elemental_data.npz");
                  (CConstraints, "femio_constraints.npz"); (CSettings, "femio_settings.npz")];
+  resave_mesh_read := false;
   glob_order := fun l => rev l |}.
 
 Example C05_example_cfg_ok : cfg_ok example_cfg = true /\ order_ok (glob_order example_cfg).
@@ -69,11 +83,14 @@ Qed.
 
 Example C05_example_nontrivial :
   wf_snap snapA = true /\ wf_snap snapB = true /\ wf_snap snapS = true
-  /\ map fst (run example_cfg snapS [Save snapA false; SaveCrash snapB false 5; Read; Read] [])
+  /\ map fst (run example_cfg snapS [Save snapA false; SaveCrash snapB false 5; Read false; Read false] [])
      = [RNone; RNone; RParsed; RLoaded (Some snapS)]
   /\ (* the checker rejects a wrong answer *)
-     spec_run snapS [Save snapA false; Save snapB false; Read]
-              [RNone; RNone; RLoaded (Some snapA)] init_spec 0 = Some 2.
+     spec_run snapS [Save snapA false; Save snapB false; Read false]
+              [RNone; RNone; RLoaded (Some snapA)] init_spec 0 = Some 2
+  /\ (* ... and a full read served from a mesh-only cache of the source *)
+     spec_run snapS [Read true; Read false]
+              [RParsed; RLoaded (Some (img snapS true))] init_spec 0 = Some 1.
 Proof. vm_compute. repeat split; reflexivity. Qed.
 
 (* ---------------------------------------------------------------------
@@ -134,6 +151,7 @@ Proof. vm_compute. repeat split; reflexivity. Qed.
 Print Assumptions C05_crash_safe.
 Print Assumptions C05_save_then_read.
 Print Assumptions C05_cache_transparent.
+Print Assumptions C05_mesh_read_then_full_read.
 Print Assumptions C05_attr_dict_roundtrip.
 Print Assumptions C05_elements_dict_roundtrip.
 Print Assumptions C05_attrs_dict_roundtrip.
